@@ -1494,6 +1494,13 @@ def _decide_label(cond, labs):
         return lab_holds(labs, str(cond[1]))
     if cond[0] == "discr" and isinstance(cond[1], tuple) and cond[1] and cond[1][0] == "agg":
         adt = cond[1][1].rsplit("::", 1)[-1]
+        if len(cond) > 2 and cond[2] == "try":
+            # the switch is on Try::branch(x): Continue (0) for Some/Ok/Continue, Break (1) otherwise
+            if cond[1][2] in ("Some", "Ok", "Continue"):
+                return lab_holds(labs, "0")
+            if cond[1][2] in ("None", "Err", "Break"):
+                return lab_holds(labs, "1")
+            return None
         idx = _STD_IDX.get(adt, {}).get(cond[1][2])
         if idx is not None:
             return lab_holds(labs, idx)
